@@ -521,7 +521,7 @@ def run(tier, replay=None):
     finally:
         shutil.rmtree(cwd, ignore_errors=True)
     chk.exhaustive = complete
-    chk.extra['exhaustive_space'] = ('all histories of length <= 2 over 8 documents x 3 kinds x 3 reuse modes + 2 documents x 2 loop kinds'
+    chk.extra['exhaustive_space'] = ('all histories of length <= 2 over 9 documents x 3 kinds x 3 reuse modes + 2 documents x 2 loop kinds'
                                      + ('' if tier == 'quick' else '; all kept histories of length 3 (<= 2 distinct documents, uniform reuse mode)')
                                      + '; longer histories are a seeded sample'
                                      + ('' if complete else ' -- NOT completed within the time budget on this run, see histories.stages'))
